@@ -2,6 +2,7 @@ import Holpy.C16.SimplexModel
 import Holpy.C16.SimplexInv
 import Holpy.C16.SimplexCheck3
 import Holpy.C16.SimplexHandle
+import Holpy.C16.SimplexRun
 /-
 C16 — property theorems about the model of `prover/simplex.py` (`Simplex`).  The model
 (`SimplexModel.lean`) is tied to the code by the step-by-step correspondence stream of
@@ -119,5 +120,38 @@ def outcomeTag : Outcome → Nat
 example : outcomeTag (handleAssertion 9 exampleState [.geq 0 1] 0 []).1 = 0 ∧
     outcomeTag (handleAssertion 9 exampleState [.leq 100 0, .leq 101 0, .geq 0 1] 0 []).1 = 1 ∧
     outcomeTag (handleAssertion 9 exampleState [.geq 100 1, .leq 100 0] 0 []).1 = 2 := by decide
+
+/-- A whole run `s = Simplex(); s.add_ineqs(*qs); s.handle_assertion()` that ends without exception:
+`s.mapping` satisfies every given constraint `Σ cⱼ·xⱼ ≥ b` / `≤ b` — except constraints of the form
+`0·x ⋈ b`, which `add_ineq` silently ignores (the hypothesis excludes them; they are not generated by
+holpy's own callers).  `InputOK N qs`: each constraint mentions a variable at most once and problem
+variables are numbered from `N ≥ len(qs)` upwards (the harness uses `100 + i`). -/
+theorem simplex_sat_sound (N fuel : Nat) (qs : List Ineq) (hin : InputOK N qs) (s' : SState) (tr : List SState)
+    (h : run fuel qs = (.sat s', tr)) :
+    ∀ q ∈ qs, (∀ x, q.jars ≠ [(x, 0)]) → IneqHolds q s'.mapping :=
+  run_sat N fuel qs hin s' tr h
+
+/-- A whole run that ends in `UNSATException` (some `check()` answered UNSAT) or in an
+`AssertUpper/LowerException`: the given constraints have no rational solution.  Termination of
+`check` is not proved (the variable choice is not Bland's rule: the LAST violated basic variable is
+repaired); with too little fuel the model's outcome is `fuel`, about which nothing is claimed. -/
+theorem simplex_unsat_sound (N fuel : Nat) (qs : List Ineq) (hin : InputOK N qs) (o : Outcome) (tr : List SState)
+    (h : run fuel qs = (o, tr)) (ho : (∃ xi s', o = .unsat xi s') ∨ (∃ j s', o = .conflict j s')) :
+    ¬ ∃ w : Var → ℚ, ∀ q ∈ qs, IneqHolds q w :=
+  run_unsat N fuel qs hin o tr h ho
+
+-- x + y ≥ 1, x ≤ 0, 2·y ≤ 1 (unsatisfiable: a check() answers UNSAT);  2·x ≥ 1, 2·x ≤ 1 (satisfiable with x = 1/2);
+-- x ≥ 3, x ≤ 2 (refused by assert_upper)
+def exUnsat : List Ineq := [⟨.ge, [(100, 1), (101, 1)], 1⟩, ⟨.le, [(100, 1)], 0⟩, ⟨.le, [(101, 2)], 1⟩]
+def exSat : List Ineq := [⟨.ge, [(100, 2)], 1⟩, ⟨.le, [(100, 2)], 1⟩]
+def exConflict : List Ineq := [⟨.ge, [(100, 1)], 3⟩, ⟨.le, [(100, 1)], 2⟩]
+
+example : outcomeTag (run 20 exUnsat).1 = 1 ∧ outcomeTag (run 20 exSat).1 = 0 ∧ outcomeTag (run 20 exConflict).1 = 2 := by decide +kernel
+
+example : InputOK 100 exUnsat ∧ InputOK 100 exSat ∧ InputOK 100 exConflict := by
+  refine ⟨⟨by decide, ?_⟩, ⟨by decide, ?_⟩, ⟨by decide, ?_⟩⟩ <;>
+  · intro q hq
+    simp [exUnsat, exSat, exConflict] at hq
+    rcases hq with rfl | rfl | rfl <;> simp [DistinctVars, varsOf]
 
 end Holpy.C16
